@@ -106,7 +106,7 @@ func mkCustom() map[string]*CustomOp {
 		return int64(41), nil
 	}})
 	// cmed: the median of its integer arguments, found by sorting the argument slice in place;
-	// ctup/cmem: a tuple constructor whose result is its own argument slice, and membership in such a tuple
+	// ctup/cmem: a tuple constructor and membership in such a tuple
 	ops = append(ops, &CustomOp{Name: "cmed", MutatesArgs: true, Fn: func(a []interface{}) (interface{}, error) {
 		if len(a) == 0 {
 			return nil, ErrCustom
@@ -119,7 +119,9 @@ func mkCustom() map[string]*CustomOp {
 		sort.Slice(a, func(i, j int) bool { return a[i].(int64) < a[j].(int64) })
 		return a[len(a)/2], nil
 	}})
-	ops = append(ops, &CustomOp{Name: "ctup", ReturnsArgs: true, Fn: func(a []interface{}) (interface{}, error) {
+	// (ctup returns a copy: the engine hands binary operators a buffer it reuses, so an operator must not keep the
+	// slice it is handed - keeping it is outside the operator contract for every arity)
+	ops = append(ops, &CustomOp{Name: "ctup", Fn: func(a []interface{}) (interface{}, error) {
 		return append([]interface{}{}, a...), nil
 	}})
 	ops = append(ops, &CustomOp{Name: "cmem", Fn: func(a []interface{}) (interface{}, error) {
@@ -131,12 +133,28 @@ func mkCustom() map[string]*CustomOp {
 			return nil, ErrCustom
 		}
 		for _, e := range t {
-			if e == a[0] {
+			if valEq(e, a[0]) { // total on every value a hostile binding can deliver
 				return true, nil
 			}
 		}
 		return false, nil
 	}})
+	// cself: a recursive rule - evaluates the very expression it occurs in once more, with a context of its own in which
+	// b0 is false (the guard that ends the recursion), and returns that value
+	ops = append(ops, &CustomOp{Name: "cself",
+		Fn: func(a []interface{}) (interface{}, error) { return nil, ErrCustom },
+		CtxFn: func(ctx interface{}, a []interface{}) (interface{}, error) {
+			rf, ok := ctx.(*eval.Ctx).VariableFetcher.(*RecFetcher)
+			if !ok || rf.Self == nil || len(a) != 0 {
+				return nil, ErrCustom
+			}
+			vals := make(map[string]interface{}, len(rf.Vals))
+			for k, v := range rf.Vals {
+				vals[k] = v
+			}
+			vals["b0"] = false
+			return rf.Self.Eval(&eval.Ctx{VariableFetcher: &RecFetcher{Vals: vals, Self: rf.Self}})
+		}})
 	// crem: reads the variable named by its argument through the context it is handed, the way an operator that wraps
 	// a remote call does: DNE while the context does not hold the variable, its value afterwards
 	ops = append(ops, &CustomOp{Name: "crem",
